@@ -448,10 +448,8 @@ func init() {
 		Assumptions: []string{"NaN propagation in aggregation is implementation-defined and not judged", "float tolerance 1e-5 relative"},
 		Shards: func(tier string) []vShard {
 			var sh []vShard
-			maxL := 3
-			if tier == "thorough" {
-				maxL = 4
-			}
+			maxL := 4
+			_ = tier
 			ids := []uint32{1, 2, 3}
 			for part := 0; part < 7; part++ {
 				part := part
